@@ -435,6 +435,10 @@ let () =
                                            let rec chunk l = if l = [] then [] else
                                                (List.filteri (fun i _ -> i < k) l) :: chunk (List.filteri (fun i _ -> i >= k) l) in
                                            let m1 = chunk (feed_log2 st1 pcells) in
+                                           (* premise of C16F.weights_support_partial, on the implementation's own PSSM cells:
+                                              -inf exactly where the integer tables say so, finite elsewhere *)
+                                           if not (pssm_shape kn st1.st_bg st1.st_motif m1) then
+                                             diff (tag ^ " iteration-pssm-shape(-inf-cells-differ-from-the-integer-tables)");
                                            (* exp2 table: inputs = the model's scores as f64 / 1.0 *)
                                            let sc = score_vec wn m1 sz in
                                            let wins = weight_vec ident64 sc and wouts = u64s wcells in
@@ -457,6 +461,21 @@ let () =
                                                  | _ -> ())
                                             | None -> ());
                                            (match !oracle_bad with Some b -> diff (tag ^ " libm-oracle " ^ b) | None -> ());
+                                           (* the two executable premises of C16F.draw_weight_positive, on every replayed draw:
+                                              the word's 52-bit fraction lies in [0, 1-2^-52], Uniform::new left a scale >= 0 *)
+                                           (match word with
+                                            | Some wd -> if not (word_ok wd) then diff (tag ^ " generator-word-fraction-outside-unit-interval")
+                                            | None -> ());
+                                           (match wi_new (weight_vec fexp2 sc) with
+                                            | WOk (cumw, _, scale) ->
+                                                if not (scale_ok scale) then diff (tag ^ " uniform-scale-negative-or-not-finite");
+                                                (* and its conclusion on the implementation's own draw *)
+                                                ignore cumw;
+                                                (match List.nth_opt (weight_vec fexp2 sc) s_new with
+                                                 | Some wv -> if not (F64.lt F64.zero wv) then
+                                                       diff (Printf.sprintf "%s start-%d-has-weight-zero-in-the-float-model" tag s_new)
+                                                 | None -> diff (Printf.sprintf "%s start-%d-outside-the-weight-vector" tag s_new))
+                                            | _ -> ());
                                            (* the model's own choice *)
                                            (match choice_of flog2 fpow2 fexp2 c st zn word with
                                             | Ok chm ->
